@@ -217,6 +217,14 @@ pub fn generate_with_logs(plan: &Plan, core: &Rc<SimCore>, seed: u64, logs: bool
                                 Def::One => {
                                     if r.chance(fail_pm, 1000) {
                                         let payload: event::Info = match r.below(3) {
+                                            // now and then a message of many kilobytes (an assertion dumping a large value),
+                                            // multi-byte text at every offset, its token at the very end
+                                            0 if r.chance(1, 25) => {
+                                                let unit = *r.pick(&["x", "ж", "語", "🙂", "a\u{301}"]);
+                                                let n = r.range(3_000, 70_000) as usize / unit.len();
+                                                let pad = &"abc"[..r.below(3) as usize];
+                                                Arc::new(format!("boom {pad}{} {}", unit.repeat(n), new_tok()))
+                                            }
                                             0 => Arc::new(format!("boom {}", new_tok())),
                                             1 => {
                                                 let s: &'static str = Box::leak(format!("boom {}", new_tok()).into_boxed_str());
